@@ -40,6 +40,9 @@ kf("C08", "C08-case-selector-const-expression", "a case selector that is a const
 kf("C08", "C08-module-const-alias-constructor", "a module-scope constant initialised through an alias used as a conversion, `alias AI = i32; const C = AI(4);`, is rejected (\"module constant 'C': unsupported call expression 'AI'\") in every declaration order; the same expression is accepted inside a function",
    ["C08|lower|-|*module constant 'C': unsupported call expression 'AI'*|F8o/const-alias-conv/*"])
 
+kf("C08", "C08-hlsl-subgroup-bool-store", "HLSL backend rejects `out[lid] = u32(subgroupAll(c))` / `subgroupAny` (\"writeStorageStore: cannot resolve type\"); the other backends accept it",
+   ["C08|hlsl|*|hlsl: writeStorageStore: cannot resolve type|F9/subgroupA*/bool/*"])
+
 # ---------------------------------------------------------------- C01 (SPIR-V semantics)
 kf("C01", "C01-fmod", "f32 `%` is emitted as OpFMod (floored, sign of divisor); WGSL prescribes the truncated remainder (sign of dividend), e.g. -7.5 % 2.0 gives 0.5 instead of -1.5",
    ["C01|F1/bin/%/*f32*|*|mismatch"])
@@ -143,6 +146,8 @@ kf("C10", "C10-spirv-consume-block-nil", "code after a `continue`/`break` at the
    ["C10|panic|*|runtime error: invalid memory address or nil pointer dereference|spirv/internal/codegen.(*ExpressionEmitter).consumeBlock"])
 
 # ---------------------------------------------------------------- C02 (SPIR-V structure)
+kf("C02", "C02-wgul-aggregate-load-type", "`workgroupUniformLoad(&warr)` / `(&wst)` on a workgroup array or struct emits an OpLoad whose result type differs from the pointee type of the workgroup variable",
+   ["C02|type-load|*OpLoad: result type * differs from the pointee type*|F9/workgroupUniformLoad/*"])
 kf("C02", "C02-std140-matrix-stride", "matCx2 (and f16 matrix) members of Uniform blocks get MatrixStride 8 (or 4): Vulkan's extended (std140) layout requires 16 without the uniformBufferStandardLayout feature",
    ["C02|layout-align-std140|*|corpus/access|*", "C02|layout-align-std140|*|corpus/f16|*", "C02|layout-align-std140|*|corpus/globals|*", "C02|layout-align-std140|*|corpus/hlsl_mat_cx2|*", "C02|layout-align-std140|*|corpus/ptr-deref-test|*"])
 kf("C02", "C02-transpose-result-type", "transpose()/determinant() results are typed as the argument (see C09-math-result-type): OpCompositeExtract on the transposed value walks the wrong type",
